@@ -271,15 +271,32 @@ HARNESSES = {
                 fixed=dict(nsc=5, pa4=False, pa5=False, pb5=False, pb0=False, pb1=False,
                            pb2=False, pb3=False, form=0), budget_s=100),
             'thorough': dict(
-                split=dict(shape=list(range(9)), stack=list(range(6)),
-                           form=list(range(5))),
-                fixed=dict(nsc=6, pb0=False, pb1=False, pb3=False, pb5=False),
+                split=dict(shape=list(range(9)), stack=list(range(6))),
+                fixed=dict(nsc=6, form=0, pb0=False, pb1=False, pb2=False, pb3=False, pb5=False),
                 budget_s=900),
         },
         bounds='quick: parameter a bound at any subset of the prefix chain "", s1, s1/s2, s1/s2/s3, parameter b at the '
                'non-prefix scope s2; active stacks [], [s1,s2], [s1,s2,s3], [s2]; 9 shapes (incl. *args + keyword-only with surplus positionals); every caller split. '
                'thorough: 6 binding scopes, 6 stacks, 5 ways of entering the stack. values: all ints',
     ),
+    'c01_forms': dict(
+        fn='c01_inject',
+        anchors=['gin.config:config_scope'],
+        smoke=[dict(nsc=5, shape=1, stack=3, form=3, ma=0, mb=2, pa0=True, pa1=True,
+                    pa2=True, pa3=True, pa4=False, pa5=False, pb0=True, pb1=False,
+                    pb2=False, pb3=False, pb4=False, pb5=False, va0=1, va1=2, va2=3,
+                    va3=4, va4=5, va5=6, vb0=7, vb1=8, vb2=9, vb3=10, vb4=11, vb5=12,
+                    ca=13, cb=14, cx=15)],
+        tiers={
+            'quick': dict(split=dict(form=[1, 2, 3, 4], stack=[0, 3, 4]),
+                          fixed=dict(nsc=5, shape=1, pa1=False, pa4=False, pa5=False, pb0=False, pb1=False,
+                                     pb2=False, pb3=False, pb5=False), budget_s=100),
+            'thorough': dict(split=dict(shape=list(range(9)), stack=list(range(6)), form=[1, 2, 3, 4]),
+                             fixed=dict(nsc=6, pa4=False, pa5=False, pb0=False, pb1=False, pb2=False,
+                                        pb3=False, pb5=False), budget_s=900),
+        },
+        bounds='the other 4 ways of making a stack active (a/b shorthand, explicit list, list inside an unrelated '
+               'scope, None then names): quick for one shape, thorough for all shapes and stacks'),
     'c01_introspect': dict(
         fn='c01_introspect',
         anchors=['gin.config:get_bindings', 'gin.config:query_parameter'],
